@@ -11,7 +11,7 @@ joined by ` | `.
   `p<idx>.<chunks>.<eof><exc>`, `m<has><close><v11><vge11><nostream><expect><eof><exc><badurl>.<chunks>`,
   `u<0|1>`, `t<tailLen>`, `!<lost>` (raised), `_` (call without any token)
 * events: `d<n>` data_received(n bytes), `x` peer disconnect, `k` one callback, `s` settle,
-  `t<ms>` let `ms` of virtual time pass
+  `t<ms>` let `ms` of virtual time pass, `j<ms>` one `fire` label: jump to the next timer (at most `ms`) and make the due timers ready without running them
 -/
 namespace Aio.Driver.C05
 open Aio Aio.Wire Aio.C05
@@ -92,6 +92,7 @@ def runEvents : St → List String → List String → Option (List String)
       | ['s'] => some (settle 100000 s)
       | 'd' :: n => (String.ofList n).toNat?.map (fun n => step s (.data n))
       | 't' :: n => (String.ofList n).toNat?.map (fun n => advance 100000 s (s.now + n))
+      | 'j' :: n => (String.ofList n).toNat?.map (fun n => step s (.fire (s.now + n)))
       | _ => none
     match s' with
     | none => none
